@@ -159,6 +159,27 @@ def gen_C19(tier, seed):
     n = 80 if tier == 'quick' else 1200
     for i in range(n):
         progs.append(data_scenario('C19', i, rng, tier, window=(i % 2 == 0)).build())
+    # some channels with inline data, the others in the dict handed to write() (one and two logical files): the dict keeps its
+    # keys and values
+    for i in range(6 if tier == 'quick' else 40):
+        p = Prog(f'C19-mixed-{i}', {'kind': 'mixed'})
+        p.file(1)
+        arrs = {}
+        for k in range(1 + i % 2):
+            lf = p.lf(1, lf=k + 1, fh_id=f'LF{k}', fh_seq=k + 1)
+            sn = f'S{k}'
+            p.origin(lf, name=f'O{k}', fsn=k + 1, set_name=sn)
+            d = p.channel(lf, 'DEPTH', data=np.arange(4, dtype='float64') + 1000 * (k + 1), set_name=sn)       # inline, same name in both files
+            r = p.channel(lf, 'RPM', set_name=sn)
+            a = p.channel(lf, f'AMP{k}', set_name=sn, data=rand_array(rng, 'float32', 4, 3) if i % 3 == 0 else None)
+            arrs[r] = p.array(rand_array(rng, 'int16', 4), aid='rpm')
+            if i % 3:
+                arrs[a] = p.array(rand_array(rng, 'float32', 4, 3))
+            p.frame(lf, 'FR', [d, r, a], set_name=sn)
+        p.write(1, route='dict', data_arrays=arrs, in_chunk=[None, 2][i % 2])
+        if i % 2 == 0:
+            p.write(1, route='dict', data_arrays=arrs, fname='again.dlis')
+        progs.append(p.build())
     # float data with NaN / infinities under an integer cast (the written value is not judged here; the caller's arrays are)
     for i in range(12 if tier == 'quick' else 120):
         p = Prog(f'C19-nancast-{i}', {'kind': 'nancast'})
@@ -1060,6 +1081,19 @@ def header_route_programs(pid):
             c = p.channel(lf, f'CH{k}', data=np.arange(3 + k, dtype='float64'), set_name=sn)
             p.frame(lf, f'FR{k}', [c], set_name=sn)
         p.write(1, valid=mode != 'shared_set', either=mode == 'shared_set')
+        progs.append(p.build())
+    # ... and a header set shared by the logical files of two different DLISFile objects (a storage set split over two files)
+    for i in range(2):
+        p = Prog(f'{pid}-headers-twofiles-{i}', {'kind': 'headers', 'mode': 'shared_set_two_files', 'fringe': True})
+        for fid in (1, 2):
+            p.file(fid, seq=fid)
+            extra = {} if fid == 1 else {'header_of': 1}
+            lf = p.lf(fid, lf=fid, fh_id=f'UNIT-{fid}', fh_seq=fid, header=('ready' if fid == 1 else 'shared_set'), **extra)
+            p.origin(lf, name=f'O{fid}', fsn=fid)
+            c = p.channel(lf, f'CH{fid}', data=np.arange(3, dtype='float64'))
+            p.frame(lf, f'FR{fid}', [c])
+        for fid in ((1, 2) if i == 0 else (2, 1)):
+            p.write(fid, fname=f'unit{fid}.dlis', valid=False, either=True)
         progs.append(p.build())
     return progs
 
